@@ -20,7 +20,7 @@ from pathlib import Path
 
 from harness import tlc
 from harness.core import Machinery
-from harness.gnpy_util import EX, TD, equipment
+from harness.gnpy_util import EX, TD, REPO, equipment
 from harness import workbook_util as wu
 
 ROOT = Path(__file__).resolve().parent.parent.parent
@@ -243,7 +243,7 @@ def run_b3(chk, bench, big):
     files = sorted(list(EX.glob('*.xls')) + list(EX.glob('*.xlsx')) + list(TD.glob('*.xls')) + list(TD.glob('*.xlsx')))
     traces, details, skipped = [], {}, []
     for f in files:
-        name = str(f.relative_to('/repo'))
+        name = str(f.relative_to(REPO))
         try:
             wb, notes = wu.read_workbook(f)
         except Exception as e:                                  # noqa
